@@ -546,9 +546,14 @@ func c19r3(c *Ctx) {
 					n++
 					ops = append(ops, sc.Name())
 				}
+				// a critical section of the container's own (a second piece of shared state next to the map, e.g. a memorised key set)
+				if op, _ := mutexOp(call); op == "Lock" || op == "RLock" {
+					n++
+					ops = append(ops, "own "+op+" region")
+				}
 				// a call to another container method (f.Len() inside Keys()) whose result only sizes an allocation
 				if sc != nil && sc.Signature.Recv() != nil && sameBase(sc.Signature.Recv().Type(), fc) && sc != m {
-					only := true
+					only := call.Referrers() != nil && len(*call.Referrers()) > 0
 					for _, r := range *call.Referrers() {
 						if _, isMake := r.(*ssa.MakeMap); !isMake {
 							if _, isMS := r.(*ssa.MakeSlice); !isMS {
